@@ -3,4 +3,5 @@ CHECKS = {
     "C01": cc.c01,
     "C02": cc.c02,
     "C03": cc.c03,
+    "C06": cc.c06,
 }
